@@ -252,7 +252,9 @@ def channels(kinds, interact, d, n_eff=1, as_list=False):
             nm = StubNoiseModel(types, with_leakage=d == 3, **kw)
             with lifted_math(jm):
                 got = jm.get_lindblad_operators(noise_type=kind, noise_model=nm, interact_type=interact, dim=d)
-            env.check(len(got) == (n_eff if kind == "eff_noise" else N_OPS[kind]), f"number of jump operators ({tag})")
+            # (no clause on the NUMBER of operators: dropping or adding null operators is harmless; what the
+            # channel does is decided by the dissipator comparison below)
+            env.check(all(tuple(o.shape) == (d, d) for o in got), f"every jump operator is a {d}x{d} matrix ({tag})")
             for k, o in enumerate(keep):
                 env.check_eq(T.as_tensor(given[k], dtype=T.complex128), o, f"the user's effective operator is left unchanged ({tag})")
             compare_channels(env, got, nm, interact, d, tag)
@@ -410,7 +412,7 @@ def cases(tier):
                     weight=d * d,
                 )
             )
-            effs = [(1, False)] if quick else [(1, True), (2, False)]
+            effs = ([(1, False)] + ([(2, False)] if (interact, d) == ("ising", 2) else [])) if quick else [(1, True), (2, False)]
             for n_eff, as_list in effs:
                 out.append(
                     Case(
